@@ -437,6 +437,14 @@ walk:
 	if !lcls.IsLocal() {
 		return base
 	}
+	if fi.refVisiting == nil {
+		fi.refVisiting = map[ssa.Value]bool{}
+	}
+	if fi.refVisiting[ld] {
+		return base // loop-carried value: the other reaching stores decide
+	}
+	fi.refVisiting[ld] = true
+	defer delete(fi.refVisiting, ld)
 	root, ok := fi.contentOrigin(ld, lcls, 0)
 	if !ok || root.IsLocal() || root.IsNil() {
 		return base
